@@ -21,7 +21,9 @@ Inductive stmt :=
 | SSwap (x y : N)                          (* swap x, y *)
 | SSetIndex (x : N) (i : Z) (v : val)      (* x[i] = v   (also: every x[i] = v) *)
 | SSetSlice (x : N) (lo hi : option Z) (every : bool) (v : val)   (* [every] x[lo:hi] = v *)
-| SOpIndex (x : N) (i : Z) (op : N) (v : val).                    (* x[i] op= v *)
+| SOpIndex (x : N) (i : Z) (op : N) (v : val)                     (* x[i] op= v *)
+| SEveryOpIndex (x : N) (i : Z) (op : N) (v : val)                (* every x[i] op= v *)
+| SEveryOpSlice (x : N) (lo hi : option Z) (op : N) (v : val).    (* every x[lo:hi] op= v *)
 
 Section Stmt.
   Variable sat : N -> val -> outcome bool.
@@ -215,6 +217,38 @@ Section Stmt.
           lift s1 (binop op e v) (fun r => write_indexed s1 x (fun c' => set_elem c' i r))))
     end.
 
+  (* modify_every with indices: modify_every_existing_index works on a COPY of the value (a stream
+     is forced in the copy), applying the operator to every addressed element, left to right, and
+     stopping at the first error; the copy is then written back by assign_respecting_type with no
+     index, i.e. with the eager type check - on any failure the variable is unchanged *)
+  Definition modify_range (l : list val) (a b : nat) (f : val -> outcome val) : outcome (list val) :=
+    mid <- mapM f (firstn (b - a) (skipn a l)) ;; Ok (firstn a l ++ mid ++ skipn b l).
+  Definition modify_index (c : val) (i : Z) (f : val -> outcome val) : outcome val :=
+    match c with
+    | VList l =>
+      match py_pos (length l) i with
+      | Some k => r <- modify_range l k (S k) f ;; Ok (VList r)
+      | None => Err EIndex
+      end
+    | VDict ks vs =>
+      match dict_get ks vs (vint i) with
+      | Some w => r <- f w ;; let (a, b) := dict_put ks vs (vint i) r in Ok (VDict a b)
+      | None => Err EKey
+      end
+    | _ => Err EType
+    end.
+  Definition modify_slice (c : val) (lo hi : option Z) (f : val -> outcome val) : outcome val :=
+    match c with
+    | VList l =>
+      let (a, b) := slice_bounds (length l) lo hi in r <- modify_range l a b f ;; Ok (VList r)
+    | _ => Err EType
+    end.
+  Definition every_op_sel (s : store) (x : N) (m : val -> outcome val) : res :=
+    match lookup s x with
+    | None => (s, Err EName)
+    | Some (_, old) => lift s (m (force_seq old)) (fun nv => assign_var sat s x nv)
+    end.
+
   Definition run_stmt (st : stmt) (s : store) : res :=
     match st with
     | SAssign p v => assign_top sat inexact p None v s
@@ -226,6 +260,8 @@ Section Stmt.
     | SSetIndex x i v => set_index s x i v
     | SSetSlice x lo hi ev v => write_indexed s x (fun c => set_slice c lo hi ev v)
     | SOpIndex x i op v => op_index s x i op v
+    | SEveryOpIndex x i op v => every_op_sel s x (fun c => modify_index c i (fun e => binop op e v))
+    | SEveryOpSlice x lo hi op v => every_op_sel s x (fun c => modify_slice c lo hi (fun e => binop op e v))
     end.
 
   (* a history: every statement runs on the store its predecessor left, whatever its outcome
@@ -262,6 +298,8 @@ Definition writes (st : stmt) : list N :=
   | SSetIndex x _ _ => [x]
   | SSetSlice x _ _ _ _ => [x]
   | SOpIndex x _ _ _ => [x]
+  | SEveryOpIndex x _ _ _ => [x]
+  | SEveryOpSlice x _ _ _ _ => [x]
   end.
 
 (* ---------------------------------------------------------------- the operators of the runs *)
